@@ -17,9 +17,10 @@ for side in clean patched; do
     if [ "$t" = composed ]; then L="tf_compr tf_ternary tf_yieldfrom tf_streamlocal tf_alias tf_nestif tf_evalpos tf_dictmerge tf_isinstance_or tf_noelse tf_continue swap_ifelse tf_rename"; else L=$t; fi
     for u in $L; do /venv/bin/python $D/$u.py $W > /dev/null 2>/tmp/eql_sut_err_$n || echo "$n: transform $u failed on $side: $(tail -1 /tmp/eql_sut_err_$n)"; done
   done
-  EQL_VERIF_REPO=$W EQL_VERIF_DRY=1 /verif/run check $P 2>&1 | grep -E "^  src.* rule=|^ANALYSIS-ERROR" | sed -E 's/^  src[^ ]* [^ ]* rule=([A-Z-]+) construct=.*/\1/; s/^ANALYSIS-ERROR.*rule=([A-Z-]+).*/ANALYSIS:\1/' | sort | uniq -c | sed 's/^ *//' > /tmp/eql_sut_${n}_$side.txt
+  # one line per reported (rule, construct) - the construct key, not the line number, identifies an instance on both sides
+  EQL_VERIF_REPO=$W EQL_VERIF_DRY=1 /verif/run check $P 2>&1 | grep -E "^  src.* rule=|^ANALYSIS-ERROR" | sed -E 's/^  src[^ ]* [^ ]* rule=([A-Z-]+) construct=([^:]*(\[[^]]*\])?).*/\1 \2/; s/^ANALYSIS-ERROR.*rule=([A-Z-]+).*/ANALYSIS:\1/' | cut -c1-120 | sort -u > /tmp/eql_sut_${n}_$side.txt
   git -C /repo worktree remove --force $W
 done
-added=$(diff /tmp/eql_sut_${n}_clean.txt /tmp/eql_sut_${n}_patched.txt | grep "^>" | sed 's/^> //' | tr '\n' ';')
+added=$(diff /tmp/eql_sut_${n}_clean.txt /tmp/eql_sut_${n}_patched.txt | grep "^>" | sed 's/^> //' | cut -c1-90 | tr '\n' ';')
 echo "$n after [$TS]: added by the patch: ${added:-NOTHING}"
 rm -f /tmp/eql_sut_${n}_clean.txt /tmp/eql_sut_${n}_patched.txt /tmp/eql_sut_err_$n
